@@ -155,7 +155,14 @@ def run_history(ops, target, d, use_tmp=True):
     st3 = DiskStorage(os.path.join(d, 'env'), os.path.join(d, 'meta'), tmpd)
     q = Queue(st3, Rec(attempted, raw))
     q.start()
-    for _ in range(60):
+    # disk reads take real time (aio): wait for every listed message to be attempted, giving up only after a
+    # generous wall-clock allowance, so that a loaded machine cannot turn slowness into a verdict
+    import time as _time
+    want = len([1 for g_ in rec['gets'] if g_.get('ok') and g_['rcpts']])
+    t_end = _time.time() + 20.0
+    k_ = 0
+    while k_ < 60 or (len(set(attempted)) < want and _time.time() < t_end):
+        k_ += 1
         gevent.sleep(0.002)
         vt.settle()
         if vt.CLOCK.next_deadline() is not None:
